@@ -35,6 +35,7 @@ type Facts struct {
 	Validation     []RejectRule        `json:"validation"`     // the argument-validation chain of the redact Run closure, symbolically executed: ordered reject conditions
 	ValidationUnk  []string            `json:"validationUnknown"` // constructs of the chain the translator could not express (a translator failure)
 	Missing        []string            `json:"missing"`
+	KeyLits        []string            `json:"keyLits"`        // string literals in key positions of the redaction path (comparisons, case clauses, call arguments, list elements)
 	Fingerprints   map[string]string   `json:"fingerprints"`   // function name -> size of its printed body (evidence only)
 }
 
@@ -359,6 +360,9 @@ func main() {
 	} else {
 		facts.Missing = append(facts.Missing, "func RedactMongoLog")
 	}
+
+	// ---- the key vocabulary of the redaction path
+	keyLiterals(byName, &facts)
 
 	// ---- uses of the private key (taint analysis, see privTaint)
 	privTaint(files, &facts)
@@ -1346,4 +1350,64 @@ func privTaint(files []*ast.File, facts *Facts) {
 	for _, x := range fns {
 		classify(x.name, x.decl)
 	}
+}
+
+
+// ---------------------------------------------------------------------------------------------
+// The key vocabulary of the redaction path (anonymizer.go, helpers.go): every string literal that
+// stands in a "key position" — an operand of == / !=, a case clause, an element of a list literal,
+// or a direct argument of a call other than message formatting (fmt.*, errors.*, log.*) and
+// regexp compilation.  A key the code starts to treat specially is a new member of this set.
+func keyLiterals(byName map[string]*ast.File, facts *Facts) {
+	seen := map[string]bool{}
+	add := func(e ast.Expr) {
+		if lit, ok := strLit(e); ok && !seen[lit] {
+			seen[lit] = true
+			facts.KeyLits = append(facts.KeyLits, lit)
+		}
+	}
+	for _, fn := range []string{"anonymizer.go", "helpers.go"} {
+		f := byName[fn]
+		if f == nil {
+			facts.Missing = append(facts.Missing, "file "+fn)
+			continue
+		}
+		for _, d := range f.Decls {
+			fd, ok := d.(*ast.FuncDecl)
+			if !ok || fd.Body == nil {
+				continue
+			}
+			ast.Inspect(fd.Body, func(x ast.Node) bool {
+				switch t := x.(type) {
+				case *ast.BinaryExpr:
+					if t.Op == token.EQL || t.Op == token.NEQ {
+						add(t.X)
+						add(t.Y)
+					}
+				case *ast.CaseClause:
+					for _, e := range t.List {
+						add(e)
+					}
+				case *ast.CompositeLit:
+					for _, e := range t.Elts {
+						add(e)
+						if kv, ok := e.(*ast.KeyValueExpr); ok {
+							add(kv.Key)
+							add(kv.Value)
+						}
+					}
+				case *ast.CallExpr:
+					nm := callName(t)
+					if strings.HasPrefix(nm, "fmt.") || strings.HasPrefix(nm, "errors.") || strings.HasPrefix(nm, "log.") || strings.HasPrefix(nm, "regexp.") || nm == "panic" {
+						return true
+					}
+					for _, a := range t.Args {
+						add(a)
+					}
+				}
+				return true
+			})
+		}
+	}
+	sort.Strings(facts.KeyLits)
 }
